@@ -275,6 +275,11 @@ func (h *Hub) sendWSCloseMessage(conn *websocket.Conn) {
 
 // coordinate connection initiation attempts to a remove service
 func (h *Hub) coordinateConnectionInitations(ski string, entry *api.MdnsEntry) {
+	// no new connection attempts once the hub is shut down
+	if h.checkHasShutdown() {
+		return
+	}
+
 	if h.isConnectionAttemptRunning(ski) {
 		return
 	}
@@ -305,6 +310,11 @@ func (h *Hub) coordinateConnectionInitations(ski string, entry *api.MdnsEntry) {
 // when initating a pairing process
 func (h *Hub) prepareConnectionInitation(ski string, counter int, entry *api.MdnsEntry) {
 	h.setConnectionAttemptRunning(ski, false)
+
+	// a delayed attempt that was still pending when the hub was shut down is dropped
+	if h.checkHasShutdown() {
+		return
+	}
 
 	// check if the current counter is still the same, otherwise this counter is irrelevant
 	currentCounter, exists := h.getCurrentConnectionAttemptCounter(ski)
@@ -337,6 +347,10 @@ func (h *Hub) prepareConnectionInitation(ski string, counter int, entry *api.Mdn
 // returns true if successful
 func (h *Hub) initateConnection(remoteService *api.ServiceDetails, entry *api.MdnsEntry) bool {
 	var err error
+
+	if h.checkHasShutdown() {
+		return false
+	}
 
 	// connection attempt is not relevant if the device is no longer paired
 	// or it is not queued for pairing
